@@ -5,6 +5,9 @@ With the honest hint (`none` = what `Fq::sqrt_ratio_zeta(&ONE, &den)` returns ou
 * `isqrt_complete`: the isqrt constraints are satisfied for every input, and the gadget's (flag, y) IS the native result;
 * `decompress_complete_iff`: the decode gadget is satisfied exactly when native decoding succeeds, and its output
   coordinates are the native ones;
+* `compress_complete`: the encode gadget is satisfied for every input pair and outputs exactly what the native encoder
+  outputs; `elligator_complete`: the Elligator gadget is satisfied for every input and outputs the affine coordinates
+  of the native result;
 * `lazy_*`: forcing the encoding / the element of a lazily evaluated variable, in any order and any number of times,
   emits at most one gadget and never changes a value once it is defined.
 They use `sarkar_contract` (the table-driven routine meets its contract, C09.ark_contract); no premise is left.
@@ -46,6 +49,28 @@ theorem isqrt_complete {x : ℕ} (hx : x < q) :
         rw [Nat.cast_one, mul_one] at hv
         rw [← hv, mul_assoc, mul_inv_cancel₀ hxq, mul_one]
       simp [this]
+
+/-- honest synthesis of the encode gadget: always satisfied, and the output IS the native encoding (any input pair) -/
+theorem compress_complete (x y : ℕ) :
+    ∃ s, Ext.encodeField sqrtRatioArk (Ext.ofAffine (x, y)) = some s ∧ R1cs.compress x y none = (true, s) := by
+  obtain ⟨f, v, hs, hi⟩ := isqrt_complete (x := encDen ⟨x, y, 1, fmul q x y⟩) (encDen_lt _)
+  exact ⟨_, encodeField_of_sr (c := ⟨x, y, 1, fmul q x y⟩) hs, compress_of_isqrt hi⟩
+
+/-- honest synthesis of the Elligator gadget: always satisfied, output = affine coordinates of the native result -/
+theorem elligator_complete (r0 : ℕ) :
+    ∃ c P, elligator sqrtRatioArk ZETA r0 = some c ∧ ERepr c P ∧ (R1cs.elligator r0 none).1 = true ∧
+      P.x = (((R1cs.elligator r0 none).2.1 : ℕ) : Fq) ∧ P.y = (((R1cs.elligator r0 none).2.2 : ℕ) : Fq) := by
+  obtain ⟨f, v, hs, hi⟩ := isqrt_complete (x := ellArg r0) (ellArg_lt r0)
+  obtain ⟨c, P, hc, hr, _, _⟩ := C07.elligator_eq_spec sarkar_contract r0
+  have hc' := hc
+  rw [elligator_of_sr hs] at hc'
+  injection hc' with hc'
+  subst hc'
+  obtain ⟨hF, hT, hxx, hyy⟩ := ell_affine hr
+  rw [elligator_of_isqrt hi]
+  have b1 : (ellF r0 f v != 0) = true := by simpa using hF
+  have b2 : (ellT r0 f v != 0) = true := by simpa using hT
+  exact ⟨_, P, hc, hr, by simp [b1, b2], hxx, hyy⟩
 
 /-- honest synthesis of the decode gadget: satisfied iff native decoding succeeds, same coordinates -/
 theorem decompress_complete_iff {s : ℕ} (hs : s < q) :
